@@ -46,6 +46,7 @@ F_F7 = 'F7-lis-indirect-x-stepped'
 F_RPE = 'C11-rp66-empty-selection-raises'
 F_LISCOL = 'C11-lis-columns-run-together'
 F_LIS1 = 'C11-lis-single-record-stop-step-zero'
+F_LISLP = 'C11-lis-log-pass-without-cons-dropped'
 _STRP_SEEN = set()      # BIT sources on which the STRP mnemonic was already reported in this run
 
 
@@ -128,6 +129,36 @@ def provider_cuts(env, fam, rng, tier):
     return out
 
 
+def provider_lis_splice(env, fam, rng, tier):
+    """LIS files holding several log passes, spliced from the example files at logical-record boundaries of the repo index:
+    A + B (two logical files, each with its CONS tables) and A + the tail of A/B starting at the DFSR of its log pass
+    (a second log pass that is not preceded by a CONS table)."""
+    if fam != 'LIS':
+        return []
+    d = os.path.join(repo_root(), EXAMPLE_DIRS['LIS'])
+    names = [os.path.basename(p) for p in sorted(glob.glob(os.path.join(d, '*')))]
+    info = {}
+    for nm in names:
+        path = os.path.join(d, nm)
+        try:
+            fi = env.File.FileRead(path, theFileId=path, keepGoing=True)
+            idx = env.FileIndexer.FileIndex(fi)
+            tells = [ilp.tell for ilp in idx.genLogPasses() if ilp.logPass.totalFrames]
+        except Exception:
+            continue
+        if tells:
+            info[nm] = (os.path.getsize(path), tells[0])
+    out = []
+    nm = sorted(info)
+    for i, a in enumerate(nm):
+        b = nm[(i + 1) % len(nm)]
+        out.append({'fam': 'LIS', 'kind': 'splice', 'name': 'splice_%d_whole.lis' % i, 'parts': [[a, 0, info[a][0]], [b, 0, info[b][0]]]})
+        out.append({'fam': 'LIS', 'kind': 'splice', 'name': 'splice_%d_tail.lis' % i, 'parts': [[a, 0, info[a][0]], [b, info[b][1], info[b][0]]]})
+        if tier == 'quick' and i >= 1:
+            break
+    return out
+
+
 # ---- generated BIT files (own encoder, written from the ReadBIT layout)
 
 def ibm_float_bytes(x):
@@ -203,7 +234,7 @@ def provider_bit_generated(env, fam, rng, tier):
 
 SOURCE_PROVIDERS = {
     'RP66V1': [provider_examples, provider_cuts],
-    'LIS': [provider_examples, provider_cuts],
+    'LIS': [provider_examples, provider_cuts, provider_lis_splice],
     'BIT': [provider_examples, provider_cuts, provider_bit_generated],
 }
 _OPTIONAL = [('gen.c11_sources', 'providers')]     # a later module may export providers(): {fam: [provider, ...]}
@@ -243,6 +274,12 @@ def materialise(spec, scratch):
     elif spec['kind'] == 'gen' and fam == 'BIT':
         with open(path, 'wb') as f:
             f.write(encode_bit(spec['desc']))
+    elif spec['kind'] == 'splice':
+        with open(path, 'wb') as f:
+            for nm, a, b in spec['parts']:
+                with open(os.path.join(repo_root(), EXAMPLE_DIRS[fam], nm), 'rb') as g:
+                    g.seek(a)
+                    f.write(g.read(b - a))
     elif 'materialise' in spec:           # optional providers may carry their own builder name
         import importlib
         mod, fn = spec['materialise'].rsplit('.', 1)
@@ -269,9 +306,10 @@ class Pass:
 
 
 def read_truth(env, fam, path):
-    """-> (passes, stubs) ; stubs = number of outputs expected that are not log passes (RP66V1 logical files without one)."""
+    """-> (passes, stubs, extra) ; stubs = number of outputs expected that are not log passes (RP66V1 logical files
+    without one); extra['lis_seq'] = CONS tables / log passes of a LIS file in index order."""
     np = env.np
-    passes, stubs = [], 0
+    passes, stubs, extra = [], 0, {}
     if fam == 'RP66V1':
         stem = os.path.splitext(os.path.basename(path))[0]
         with env.LogicalFile.LogicalIndex(path) as li:
@@ -296,6 +334,15 @@ def read_truth(env, fam, path):
     elif fam == 'LIS':
         fi = env.File.FileRead(path, theFileId=path, keepGoing=True)
         idx = env.FileIndexer.FileIndex(fi)
+        seq, npass = [], 0
+        for ie in idx.genAll():
+            if isinstance(ie, env.FileIndexer.IndexLogPass):
+                fr = ie.logPass.totalFrames
+                seq.append(['P', fr, npass if fr else None])
+                npass += 1 if fr else 0
+            elif isinstance(ie, env.FileIndexer.IndexTable) and ie.name == b'CONS':
+                seq.append(['C'])
+        extra['lis_seq'] = seq
         for k, ilp in enumerate(idx.genLogPasses()):
             lp = ilp.logPass
             n = lp.totalFrames
@@ -327,7 +374,24 @@ def read_truth(env, fam, path):
                 continue
             cols = [np.array(c.array, dtype=np.float64).reshape(len(c.array), -1) for c in bfa.frame_array.channels]
             passes.append(Pass(str(k), [str(c.ident) for c in bfa.frame_array.channels], cols, [False] * len(cols)))
-    return passes, stubs
+    return passes, stubs, extra
+
+
+def lis_kept_passes(seq):
+    """Class predicate of C11-lis-log-pass-without-cons-dropped: the converter starts a new LAS only at a CONS table that
+    follows a log pass, and keeps per group the first log pass with frames -> indices (among the passes with frames) of the
+    passes that get a LAS file, and the number of groups whose only log passes have no frames."""
+    kept, empty_groups = [], 0
+    cur = None          # the group's log pass: None / ['P', frames, id]
+    for e in seq + [['END']]:
+        if e[0] in ('C', 'END'):
+            if cur is not None:
+                if cur[1]: kept.append(cur[2])
+                else: empty_groups += 1
+                cur = None
+        elif cur is None or cur[1] == 0:
+            cur = e
+    return kept, empty_groups
 
 
 # ------------------------------------------------------------------ reference semantics (independent of the model)
@@ -449,7 +513,7 @@ def evaluate_case(env, case, truth, res, outs, outdir, v):
     """The property oracle for one conversion (implementation alone) + observations for the correspondence."""
     np = env.np
     fam, sel, chans = case['fam'], case['sel'], case['chans']
-    passes, stubs = truth
+    passes, stubs, extra = truth
     # ---- which pass is predicted to abort the conversion by a listed defect class
     abort_at, abort_finding = None, None
     for k, p in enumerate(passes):
@@ -486,9 +550,16 @@ def evaluate_case(env, case, truth, res, outs, outdir, v):
                     cand.append(f)
         else:
             cand = list(outs)
+        eval_passes = passes
         if not res.exception and len(cand) != len(passes):
-            v.fail(f'{len(passes)} log pass(es) in the source but {len(cand)} LAS file(s) for log passes: {outs}'); return
-        pass_outs = list(zip(cand, passes))[:n_eval]
+            kept, empty_groups = lis_kept_passes(extra.get('lis_seq', [])) if fam == 'LIS' else (None, 0)
+            if fam == 'LIS' and not empty_groups and len(kept) == len(cand) < len(passes):
+                v.fail(f'{len(passes)} log passes with frames in the source but {len(cand)} LAS file(s): log pass(es) '
+                       f'{[k for k in range(len(passes)) if k not in kept]} (not preceded by a CONS table) are not converted', F_LISLP)
+                eval_passes = [passes[k] for k in kept]
+            else:
+                v.fail(f'{len(passes)} log pass(es) in the source but {len(cand)} LAS file(s) for log passes: {outs}'); return
+        pass_outs = list(zip(cand, eval_passes))[:n_eval]
     if not res.exception and res.las_count != len(outs):
         v.fail(f'result.las_count={res.las_count} but {len(outs)} LAS files written')
     for f, p in pass_outs:
